@@ -388,6 +388,9 @@ func (p *Path) execInstr(fr *Frame, ins ssa.Instruction) {
 		if addr.c == nil {
 			p.throwRuntime("nil pointer dereference (store)")
 		}
+		if addr.sym != nil {
+			p.unsup("store through a symbolic index")
+		}
 		addr.store(p.eval(fr, x.Val))
 	case *ssa.UnOp:
 		fr.env[x] = p.unop(fr, x)
@@ -565,6 +568,9 @@ func (p *Path) unop(fr *Frame, x *ssa.UnOp) Value {
 		}
 		if ptr.c == nil {
 			p.throwRuntime("invalid memory address or nil pointer dereference")
+		}
+		if ptr.sym != nil {
+			return p.symLoad(ptr)
 		}
 		return ptr.load()
 	case token.NOT:
